@@ -1,6 +1,6 @@
 (* Property theorems of the Gas cluster (C34, C35). Nothing but statements, [exact], and
    Print Assumptions. *)
-From FC Require Import Gas.Model Gas.Proofs34.
+From FC Require Import Gas.Model Gas.Proofs34 Gas.Proofs35 Gas.Proofs35b Gas.FlocqCheck.
 Open Scope Z_scope.
 
 (* ======================= C34 ======================= *)
@@ -135,3 +135,92 @@ Theorem descaled_da_within : forall u u',
   min_da u <= descaled_da_price u' <= Z.max (max_da u) (min_da u).
 Proof. exact Proofs34.descaled_da_within. Qed.
 Print Assumptions descaled_da_within.
+
+(* ======================= C35 ======================= *)
+(* The table (dimensions, every f64 literal as its exact bit pattern, the comparison operators
+   of the guard, the two rounding constants) is Gas/ExpTable.v, regenerated from utils.rs by
+   translators/exptable2coq.py on every run.  binary64 arithmetic is modelled exactly (integers
+   in units of 2^-1074, round to nearest even); libm's exp/ln are NOT modelled: the multiplier
+   of the non-table branch is an argument (the value the implementation computed). *)
+
+(* Totality: for every u32 horizon and every u64 percentage (and ANY libm multiplier) the
+   function returns; in particular every (blocks, percentage) the guard sends to the table is
+   inside the table.  (With the original guard `>` this fails: table_total_ok does not compute
+   to true and the model returns None for blocks = 25 / percentage = 25.) *)
+Theorem table_lookup_in_bounds : forall b p,
+  0 <= b -> 0 <= p -> uses_libm b p = false -> exists t, table_value b p = Some t.
+Proof. exact table_total. Qed.
+Print Assumptions table_lookup_in_bounds.
+
+Theorem estimate_total : forall price fh pct h m,
+  0 <= pct -> exists r, cumulative_percentage_change price fh pct h m = Some r.
+Proof. exact cpc_total. Qed.
+Print Assumptions estimate_total.
+
+Theorem worst_case_estimate_total : forall exec_price da_price fh pct da_pct h m m',
+  0 <= pct -> 0 <= da_pct ->
+  exists r, worst_case (cumulative_percentage_change exec_price fh pct h m)
+                       (cumulative_percentage_change da_price fh da_pct h m') = Some r.
+Proof. exact worst_case_total. Qed.
+Print Assumptions worst_case_estimate_total.
+
+(* Round-to-nearest-even onto the binary64 grid is monotone (the lemma the next two rest on). *)
+Theorem round_to_nearest_even_monotone : forall a b k,
+  0 <= a <= b -> 0 <= k -> round_q a k <= round_q b k.
+Proof. exact round_q_mono. Qed.
+Print Assumptions round_to_nearest_even_monotone.
+
+(* Monotone in the horizon, table branch: all prices, all percentages, all pairs of horizons
+   that both use the table. *)
+Theorem estimate_monotone_in_horizon_table : forall price fh pct h1 h2 m1 m2,
+  0 <= price -> 0 <= pct -> su32 (h1 - fh) <= su32 (h2 - fh) ->
+  uses_libm (su32 (h1 - fh)) pct = false -> uses_libm (su32 (h2 - fh)) pct = false ->
+  exists r1 r2, cumulative_percentage_change price fh pct h1 m1 = Some r1 /\
+                cumulative_percentage_change price fh pct h2 m2 = Some r2 /\ r1 <= r2.
+Proof. exact cpc_monotone_table. Qed.
+Print Assumptions estimate_monotone_in_horizon_table.
+
+(* Monotone in the horizon, libm branch: PARTIAL -- relative to the libm oracle: if the
+   multipliers the implementation computed are finite and ordered, so are the estimates.
+   (That exp(blocks * ln(..)) is monotone in blocks, and the table/libm seam, are checked on the
+   implementation's outputs by Pcheck, not proved.) *)
+Theorem estimate_monotone_in_horizon_libm_partial : forall price fh pct h1 h2 t1 t2,
+  0 <= price -> 0 <= t1 <= t2 ->
+  uses_libm (su32 (h1 - fh)) pct = true -> uses_libm (su32 (h2 - fh)) pct = true ->
+  exists r1 r2, cumulative_percentage_change price fh pct h1 (FFin t1) = Some r1 /\
+                cumulative_percentage_change price fh pct h2 (FFin t2) = Some r2 /\ r1 <= r2.
+Proof. exact cpc_monotone_libm. Qed.
+Print Assumptions estimate_monotone_in_horizon_libm_partial.
+
+(* Bounding the compounded price: the full statement (for all prices) is FALSE ... *)
+Theorem estimate_bounds_compounded_refuted :
+  exists price fh pct h m r,
+    0 <= price <= u64M /\ 0 <= pct /\ uses_libm (su32 (h - fh)) pct = false /\
+    KnownClass price pct (su32 (h - fh)) /\
+    cumulative_percentage_change price fh pct h m = Some r /\
+    r < compound (Z.to_nat (su32 (h - fh))) price pct.
+Proof. exact bound_table_refuted. Qed.
+Print Assumptions estimate_bounds_compounded_refuted.
+
+(* ... and holds in the table branch outside KnownClass = { price * (1+pct/100)^blocks >= 2^47 }. *)
+Theorem estimate_bounds_compounded_partial : forall price fh pct h m,
+  0 <= price <= u64M -> 0 <= pct ->
+  let blocks := su32 (h - fh) in
+  uses_libm blocks pct = false ->
+  ~ KnownClass price pct blocks ->
+  exists r, cumulative_percentage_change price fh pct h m = Some r /\
+            compound (Z.to_nat blocks) price pct <= r.
+Proof. exact bound_table_partial. Qed.
+Print Assumptions estimate_bounds_compounded_partial.
+
+Theorem estimates_checker_sound : forall price pct rs,
+  estimates_okb price pct rs = true <-> EstimatesSpec price pct rs.
+Proof. exact estimates_okb_iff. Qed.
+Print Assumptions estimates_checker_sound.
+
+(* The integer model of binary64 agrees with Flocq's IEEE 754 binary64 operations on a grid
+   (every table entry x boundary prices, subnormals, overflow, inf * 0). *)
+Theorem float_model_agrees_with_flocq :
+  check_of_u64 = true /\ check_mult = true /\ check_plus_gt = true /\ check_specials = true.
+Proof. exact flocq_agrees_all. Qed.
+Print Assumptions float_model_agrees_with_flocq.
